@@ -139,6 +139,7 @@ class Run:
         self.log = None
         self.status = "ok"
         self.final = {}
+        self.api_errors = []   # lifecycle calls (close / reset_connection) that raised
 
 
 def frames_by_conn(gen, log):
@@ -244,9 +245,7 @@ async def execute(gen, ops, w: SockWorld, run: Run, counters=None):
             log.add("API.call", name="open")
             await w.sock.open_socket()
         elif o == "close":
-            log.add("API.call", name="close")
-            await w.sock.close()
-            log.add("API.ret", name="close")
+            await _guarded(w, run, "close", w.sock.close())
         elif o in ("fin", "rst", "stall", "unstall", "garbage", "data", "wfail"):
             c = net.current()
             if c is None:
@@ -269,7 +268,7 @@ async def execute(gen, ops, w: SockWorld, run: Run, counters=None):
                     c.fail_exc = op[2]
         elif o == "reset":
             # what the heartbeat manager (or a user) does: public reset_connection()
-            tasks.append(loop.create_task(w.sock.reset_connection()))
+            tasks.append(loop.create_task(_guarded(w, run, "reset", w.sock.reset_connection())))
         elif o == "on_connect_send":
             # a connection subscriber that submits a message from inside the connected
             # notification (as the API classes do)
@@ -297,6 +296,21 @@ async def execute(gen, ops, w: SockWorld, run: Run, counters=None):
 
 
 _SERIAL_BASE = {k: 0 for k in KINDS}
+
+
+async def _guarded(w, run, name, coro):
+    """A public lifecycle call made by the script: whatever it raises is an observation
+    (run.api_errors), never a harness crash."""
+    w.log.add("API.call", name=name)
+    try:
+        await coro
+    except asyncio.CancelledError:
+        raise
+    except Exception as e:  # noqa: BLE001
+        run.api_errors.append({"call": name, "exc": repr(e), "t": w.loop.time()})
+        w.log.add("API.raise", name=name, exc=repr(e))
+        return
+    w.log.add("API.ret", name=name)
 
 
 def run_script(gen, ops, *, tail=None, open_first=True, settle=40.0, debug=False):
@@ -329,7 +343,7 @@ def run_script(gen, ops, *, tail=None, open_first=True, settle=40.0, debug=False
             if not t.done():
                 t.cancel()
         await asyncio.sleep(0)
-        await w.sock.close()
+        await _guarded(w, run, "close", w.sock.close())
         await quiesce(loop)
         return True
 
